@@ -80,6 +80,7 @@ def p_observe(t):
                                                     p.get_first_last_line_numbers(), [p.get_field_line_numbers(n) for n in list(p.line_numbers_by_field)],
                                                     p.is_valid() if hasattr(p, 'is_valid') else None, p.is_valid(strict=True) if hasattr(p, 'is_valid') else None,
                                                     repr(p), p == copy.deepcopy(p)) for p in c.paragraphs]),
+                 ('per-paragraph to_dict with every combination of flags', lambda: [p.to_dict(with_extra_data=a, with_lines=b) for p in c.paragraphs for a in (False, True) for b in (True, False)]),
                  ('get_paragraphs_by_type', lambda: [getattr(c, n)() for n in dir(c) if n.startswith('get_') and n.endswith('paragraphs')])]
         # what an object asked one question only answers
         ref = {'is_valid()': dc.DebianCopyright.from_text(t).is_valid(), 'is_valid(strict=True)': dc.DebianCopyright.from_text(t).is_valid(strict=True),
@@ -130,6 +131,12 @@ def large_copyright_texts(rng, quick=True):
                            unit=unit, gaps=feat in ('line-start', 'crlf-straddle'))
         out.append(t)
         out.append(t.rstrip('\r\n'))       # the same without a final line end
+    head = 'Format: https://www.debian.org/doc/packaging-manuals/copyright-format/1.0/\n\n'
+    longline = ' '.join('w%d' % i for i in range(14000))       # about 80 KB in one line
+    out.append(head + 'Files: *\nCopyright: 2019 x\nLicense: MIT\n first\n ' + longline + '\n last\n')
+    pad = 'Files: a\nCopyright: 2019 y\nLicense: X\n' + '\n'.join(' filler line %d' % i for i in range(3000))
+    pad = pad[:65536 - len(head) - 40]
+    out.append(head + pad + '\n the last line lies across the mark of sixty-four kilobytes and has no line end')
     return out
 
 
